@@ -595,4 +595,9 @@ def targeted_cases(rng, n):
         for nm in (b"/f%03d.txt" % (10 * k + 2), b"/f%03d.txt" % (10 * k + 2), b"/f059.txt", b"/f000.txt"): sc.op("chm_find", "h0", nm.hex())
         sc.op("chm_close", "h0")
         out.append(Case("hostile:chm-bad-chunk-signature", "chm", sc))
+    # (15) search() over a small well-formed cabinet behind a stub with every host call failing in turn (a read or seek failure while a
+    #      candidate header is parsed: the recorded findings fault-ok:cab_search:read / :seek)
+    r15 = random.Random(15); c = gen.cab_single(r15, nfolders=1, methods=[("none",)]); c2 = gen.cab_single(r15, nfolders=1, methods=[("none",)])
+    sc = scenario.Scn().file("in0.cab", b"stub " * 7 + c.files["in0.cab"] + b"between" + c2.files["in0.cab"]).op("cab_new").op("cab_search", "c0", "in0.cab").op("cab_extract_all", "c0", "out", 4).op("cab_close", "c0")
+    out.append(Case("gen:cab-search-faults", "cab", sc, True, None, all_faults=True))
     return out
